@@ -43,7 +43,15 @@ func lindiff(w *bufio.Writer, seed uint64, tier string, stats map[string]int) {
 	if tier == "thorough" {
 		rounds, writes, readers = 40, 600, 12
 	}
-	for round := 0; round < rounds; round++ {
+	// after the long rounds: many short ones in which the context is cancelled under the writer's feet
+	minis := 60
+	if tier == "thorough" {
+		minis = 600
+	}
+	for round := 0; round < rounds+minis; round++ {
+		if round >= rounds {
+			writes, readers = 24, 5
+		}
 		ctx, cancel := context.WithCancel(context.Background())
 		c := kcache.VerifNewCache(ctx, &kv.Log{}, nil, kv.Term{Op: "null"}.Build())
 		var clock atomic.Int64
@@ -56,7 +64,7 @@ func lindiff(w *bufio.Writer, seed uint64, tier string, stats map[string]int) {
 		fmt.Fprintln(w, kv.L("scenario", fmt.Sprint(round), "lin"))
 		for id := 0; id < nr; id++ {
 			wg.Add(1)
-			useGet := id%3 == 2
+			useGet := id%2 == 1
 			go func(id int) {
 				defer wg.Done()
 				for {
@@ -72,6 +80,9 @@ func lindiff(w *bufio.Writer, seed uint64, tier string, stats map[string]int) {
 						t1 := clock.Add(1)
 						res := "nil"
 						if err != nil {
+							if ctx.Err() != nil {
+								return // shutting down: ErrNotRunning is the right answer from now on
+							}
 							res = "err"
 						} else if o != nil {
 							res = o.GetResourceVersion()
@@ -82,6 +93,9 @@ func lindiff(w *bufio.Writer, seed uint64, tier string, stats map[string]int) {
 					l, err := c.List()
 					t1 := clock.Add(1)
 					if err != nil {
+						if ctx.Err() != nil {
+							return
+						}
 						emit(kv.L("r", fmt.Sprint(id), fmt.Sprint(t0), fmt.Sprint(t1), "err"))
 						continue
 					}
@@ -97,18 +111,30 @@ func lindiff(w *bufio.Writer, seed uint64, tier string, stats map[string]int) {
 				}
 			}(id)
 		}
+		// every third round the context is cancelled while the writer is at work: a write either happens
+		// completely or fails with ErrNotRunning, and readers never see anything in between
+		cancelAt := 0
+		if round%3 == 2 || round >= rounds {
+			cancelAt = writes/4 + r.Intn(writes/2)
+		}
+		done := writes
 		for k := 1; k <= writes; k++ {
 			st := linState(k)
+			if k == cancelAt {
+				go cancel()
+			}
 			t0 := clock.Add(1)
 			mode := r.Intn(3)
+			var err error
 			switch mode {
-			case 0:
-				c.Sync(kv.BuildAll(st))
 			case 1:
-				c.Refilter(kv.BuildAll(st), kv.Term{Op: "null"}.Build())
+				_, err = c.Refilter(kv.BuildAll(st), kv.Term{Op: "null"}.Build())
 			default:
-				// an equivalent relist, but through a rejecting refilter first is NOT atomic for readers; so use sync
-				c.Sync(kv.BuildAll(st))
+				_, err = c.Sync(kv.BuildAll(st))
+			}
+			if err != nil {
+				done = k - 1
+				break
 			}
 			t1 := clock.Add(1)
 			emit(kv.L("w", fmt.Sprint(k), fmt.Sprint(t0), fmt.Sprint(t1)))
@@ -120,7 +146,7 @@ func lindiff(w *bufio.Writer, seed uint64, tier string, stats map[string]int) {
 		for _, l := range lines {
 			fmt.Fprintln(w, l)
 		}
-		fmt.Fprintln(w, kv.L("lin-end", fmt.Sprint(writes)))
+		fmt.Fprintln(w, kv.L("lin-end", fmt.Sprint(done)))
 		stats["rounds"]++
 		stats["ops"] += len(lines)
 	}
